@@ -61,6 +61,10 @@ func (p predSpec) fn() func([]byte, uint32) bool {
 		return func(raw []byte, _ uint32) bool { return len(raw) >= p.off }
 	case "always":
 		return func([]byte, uint32) bool { return true }
+	case "whole": // a detector that looks at its limit argument, as the JSON / CSV detectors do
+		return func(raw []byte, limit uint32) bool { return limit == 0 || len(raw) < int(limit) }
+	case "cut":
+		return func(raw []byte, limit uint32) bool { return limit != 0 && len(raw) >= int(limit) }
 	}
 	return func([]byte, uint32) bool { return false }
 }
@@ -151,7 +155,7 @@ func cmdC14Child(args []string) {
 		if ph != "-" {
 			x, _ = hexDecode(ph)
 		}
-		for _, l := range []uint32{3072, 0} {
+		for _, l := range []uint32{3072, 0, 9} {
 			hdr := header(x, l)
 			var sb strings.Builder
 			for _, n := range nodes {
@@ -182,6 +186,10 @@ func cmdC14Child(args []string) {
 					}
 				}
 				for p := m; p != nil; p = p.Parent() {
+					// every element of the chain names a registered format, spelled as it was registered
+					if l := mimetype.Lookup(bareType(p.String())); l == nil {
+						fmt.Fprintf(out, "!propfail\tC02\tthe chain of a result names %q, which Lookup does not find among the registered formats (names are reported as registered); result=%q input=%s history=%s\n", bareType(p.String()), m.String(), hx(x), args[0])
+					}
 					if p != m && strings.Contains(p.String(), ";") {
 						fmt.Fprintf(out, "!propfail\tC02\tan ancestor in the Parent() chain carries a parameter after Extend calls: %q in chain of %q; input=%s history=%s\n", p.String(), m.String(), hx(x), args[0])
 					}
@@ -215,6 +223,7 @@ func cmdC14Child(args []string) {
 	}
 	// overlapping Extend calls on one parent while a detection holds the read lock: none may be lost
 	{
+		mimetype.SetLimit(3072) // (the probes above leave a small limit behind: the blocking input must fit the header)
 		gate := make(chan struct{})
 		entered := make(chan struct{}, 1)
 		mimetype.Extend(func(raw []byte, _ uint32) bool {
@@ -304,11 +313,15 @@ func runC14(c *runCtx) {
 				}
 			}
 			var pred predSpec
-			sel := r.Intn(6)
+			sel := r.Intn(8)
 			if chain {
 				sel = []int{0, 4, 5}[r.Intn(3)]
 			}
 			switch sel {
+			case 6:
+				pred = predSpec{"whole", nil, 0}
+			case 7:
+				pred = predSpec{"cut", nil, 0}
 			case 0:
 				pred = predSpec{"always", nil, 0}
 			case 1:
